@@ -218,7 +218,7 @@ def main(argv):
     if not ok:
         c.broken.append("build of repo working tree failed: " + blog[-800:])
         return c.finish(rule="build failed")
-    c.proofs()
+    c.proofs(only=["utf8"])
     from gen.fallback import shape_note
     note = shape_note("Src_utf8.v")
     if note:
